@@ -498,6 +498,9 @@ func jsonKey(t *rapid.T, pattern string) string {
 	if rapid.IntRange(0, 2).Draw(t, "reserved") == 0 {
 		return rapid.SampledFrom([]string{"id", "id", "ID", "type", "bbox", "geometry", "properties", "features", "coordinates", "geometries", "crs", "name", ""}).Draw(t, "rkey")
 	}
+	if rapid.IntRange(0, 3).Draw(t, "anykey") == 0 {
+		return jsonString(t, "keyany")
+	}
 	return rapid.StringMatching(pattern).Draw(t, "key")
 }
 
@@ -508,6 +511,9 @@ func genJSONValue(t *rapid.T, depth int) any {
 	}
 	switch k {
 	case 0:
+		if rapid.IntRange(0, 2).Draw(t, "jstrany") == 0 {
+			return jsonString(t, "jstrv")
+		}
 		return rapid.StringMatching(`[ -~]{0,8}`).Draw(t, "jstr")
 	case 1:
 		return float64(rapid.IntRange(-1000, 1000).Draw(t, "jint"))
@@ -534,10 +540,32 @@ func genJSONValue(t *rapid.T, depth int) any {
 	}
 }
 
+// jsonString draws a string of 0..8 characters of every class a JSON writer treats
+// differently: printable ASCII, the characters with short escapes, the other C0
+// controls and DEL, quote, backslash and slash, the ones an HTML-safe writer escapes,
+// the line separators, Latin-1, other BMP characters, and characters beyond the BMP
+// (printable and not). Always valid UTF-8 (anything else is replaced when written).
+func jsonString(t *rapid.T, label string) string {
+	classes := [][]rune{
+		[]rune("aZ09 _-"), []rune("\b\t\n\f\r"), {0, 1, 7, 0x0b, 0x1b, 0x1f, 0x7f}, []rune(`"\/`), []rune("<>&"),
+		{0x2028, 0x2029, 0x85, 0xa0}, []rune("üéß"), {0x0416, 0x4e2d, 0xfffd, 0xfeff, 0xd7ff, 0xe000}, {0x1f600, 0x10000, 0xe0001, 0x10ffff},
+	}
+	n := rapid.IntRange(0, 8).Draw(t, label+"len")
+	var sb strings.Builder
+	for i := 0; i < n; i++ {
+		cl := classes[rapid.IntRange(0, len(classes)-1).Draw(t, label+"class")]
+		sb.WriteRune(cl[rapid.IntRange(0, len(cl)-1).Draw(t, label+"rune")])
+	}
+	return sb.String()
+}
+
 func genFeat(t *rapid.T) Feat {
 	f := Feat{ID: rapid.SampledFrom([]string{"", "a", "0", "17", "-1.5", "id with space", "null", "ü"}).Draw(t, "id"), BBox: genBox(t)}
-	if rapid.IntRange(0, 4).Draw(t, "randid") == 0 {
+	switch rapid.IntRange(0, 7).Draw(t, "randid") {
+	case 0:
 		f.ID = rapid.StringMatching(`[ -~]{0,10}`).Draw(t, "idstr")
+	case 1, 2:
+		f.ID = jsonString(t, "idany")
 	}
 	if rapid.IntRange(0, 3).Draw(t, "nogeom") != 0 {
 		for {
